@@ -78,9 +78,11 @@ def parseFloatModel (s : String) : FloatRes :=
 
 def isAlnum (c : Char) : Bool := isDigit c || ('a' ≤ c && c ≤ 'z') || ('A' ≤ c && c ≤ 'Z')
 
-/-- regexp.Compile: alphanumeric words always compile; everything else is not modelled -/
+/-- regexp.Compile: words of ASCII letters / digits and non-ASCII characters always compile (a character
+    ≥ U+0080, U+FFFD included, is never a metacharacter: it stands for itself); everything else is not
+    modelled -/
 def regexCompileModel (s : String) : RegexRes :=
-  if s.toList.all isAlnum then .ok else .unmodelled
+  if s.toList.all (fun c => isAlnum c || c.toNat ≥ 0x80) then .ok else .unmodelled
 
 def driverExt : Ext where
   atoi := atoiModel
